@@ -33,6 +33,11 @@ Setup ==
   << [op |-> "NewDoc", out |-> "d1"],
      [op |-> "AddNs", h |-> "d1", p |-> "ex", u |-> A] >>
   \o (IF Mode = "ns" THEN << [op |-> "Bundle", h |-> "d1", id |-> NamePL("ex", <<"b1">>), out |-> "b1"] >> ELSE <<>>)
+  \* mode "ns2": a document with its own default namespace and TWO bundles (what one bundle declares must
+  \* not reach the next one)
+  \o (IF Mode = "ns2" THEN << [op |-> "SetDefault", h |-> "d1", u |-> A],
+                               [op |-> "Bundle", h |-> "d1", id |-> NamePL("ex", <<"b1">>), out |-> "b1"],
+                               [op |-> "Bundle", h |-> "d1", id |-> NamePL("ex", <<"b2">>), out |-> "b2"] >> ELSE <<>>)
 NSetup == Len(Setup)
 Init == ms = RunF(InitMs("empty"), Setup, NSetup) /\ hist = Setup
 
@@ -258,6 +263,12 @@ NsRecActs ==
   \cup { [op |-> "NewRec", h |-> h, k |-> "generation", via |-> "new_record", id |-> <<>>,
            formals |-> << <<"entity", Ref(e)>>, <<"activity", Ref(NameQN("", C, Y))>> >>, extras |-> <<>>]
            : h \in {"d1", "b1"}, e \in {NamePL("ex", X), NameBare(X)} }
+Ns2Acts ==
+  { [op |-> "SetDefault", h |-> h, u |-> C] : h \in {"b1", "b2"} }
+  \cup { [op |-> "AddNs", h |-> h, p |-> "q", u |-> C] : h \in {"b1", "b2"} }
+  \cup { [op |-> "NewRec", h |-> h, k |-> "entity", via |-> "new_record", id |-> <<i>>, formals |-> <<>>, extras |-> e]
+           : h \in {"b1", "b2", "d1"}, i \in {NameBare(X), NamePL("ex", X), NameQN("q", C, X)},
+             e \in { <<>>, << <<NameBare(<<"attr">>), [t |-> "str", v |-> "s1"]>> >> } }
 (* Mode "graph": bundle-free documents with declared and undeclared endpoints, repeated     *)
 (* identifiers, parallel relations, self-loops, relations lacking an endpoint (C14, C15)     *)
 Z == <<"z">>
@@ -306,6 +317,7 @@ Build ==
      THEN \/ (Len(hist) = NSetup /\ \E a \in ShapeActs("d1") : Step(a))
           \/ (Len(hist) > NSetup /\ \E a \in SecondActs : Step(a))
      ELSE IF Mode = "graph" THEN \E a \in GraphActs : Step(a)
+     ELSE IF Mode = "ns2" THEN \E a \in Ns2Acts : DefaultOK(a) /\ Step(a)
      ELSE IF Mode = "rdf"
      THEN \/ (Len(hist) = NSetup /\ \E a \in RdfActs("d1") : Step(a))
           \/ (Len(hist) > NSetup /\ \E a \in RdfSecond : Step(a))
